@@ -124,8 +124,8 @@ def find_body(relpath, sig, which=None):
     return s[k:e + 1], s[m.start():k]
 
 
-def find_region(relpath, begin_rx, end_rx):
-    """Text between the unique match of begin_rx (inclusive) and the first later match of end_rx (exclusive)."""
+def find_region(relpath, begin_rx, end_rx, end_inclusive=False):
+    """Text between the unique match of begin_rx (inclusive) and the first later match of end_rx (exclusive, or inclusive on request)."""
     s = read_source(relpath)
     ms = list(re.finditer(begin_rx, s))
     if len(ms) != 1:
@@ -133,7 +133,7 @@ def find_region(relpath, begin_rx, end_rx):
     m2 = re.compile(end_rx).search(s, ms[0].end())
     if not m2:
         raise ExtractionError("region end %r not found in %s" % (end_rx, relpath))
-    return s[ms[0].start():m2.start()]
+    return s[ms[0].start():(m2.end() if end_inclusive else m2.start())]
 
 
 LOOP_KW = re.compile(r"\b(for|while|do)\b")
@@ -299,7 +299,7 @@ def extract_source(src, unit_name="?"):
     if "sig" in src:
         body, header = find_body(src["file"], src["sig"], src.get("which"))
     else:
-        body = find_region(src["file"], src["begin"], src["end"])
+        body = find_region(src["file"], src["begin"], src["end"], src.get("end_inclusive", False))
         header = ""
         if src.get("wrap_braces", True):
             body = "{\n" + body + "\n}"
